@@ -194,7 +194,16 @@ fn encode_entries(dir: &Path, recursive: bool, contents: u8, inputs: &mut Vec<(S
         for e in rd.flatten() {
             let name = e.file_name().to_string_lossy().into_owned();
             let p = e.path();
-            if p.is_dir() {
+            let is_link = std::fs::symlink_metadata(&p).map(|m| m.file_type().is_symlink()).unwrap_or(false);
+            if is_link {
+                // a symbolic link is neither `is_file()` nor `is_dir()` for `DirEntry::file_type`: the static calls
+                // skip it, compile_templates opens it like a file if its name has a template suffix
+                if track && contents == 1 && is_template(&name) {
+                    inputs.push((p.display().to_string(), false));
+                }
+                let c = std::fs::read(&p).unwrap_or_default();
+                v.push(format!("l{}:{}", hex(name.as_bytes()), hex(&c)));
+            } else if p.is_dir() {
                 let t = track && recursive;
                 if t {
                     inputs.push((p.display().to_string(), true));
@@ -482,8 +491,9 @@ const GOOD_TEMPLATES: &[&str] = &[
     "@use a::b;\n@use c::d;\n@use a::b;\n@use e::f;\n@use g::h;\n@use i::j;\n@()\nrepeated uses\n",
 ];
 const BAD_TEMPLATES: &[&str] = &["@(\n", "@()\n@if x {", "no declaration", "@()\n@for a b {}", "@()\n\u{e9}@{x}@(", "@()\n@* \u{e5} *@ @if { x }"];
-const DIRS: &[&str] = &["sub", "admin", "a", "b2", "deep_dir", "x"];
-const STEMS: &[&str] = &["page", "index", "base", "item", "t1", "footer", "err"];
+const DIRS: &[&str] = &["sub", "admin", "a", "b2", "deep_dir", "x", "mysub"];
+// (names where one is a proper tail of another: page / homepage, item / list_item)
+const STEMS: &[&str] = &["page", "index", "base", "item", "t1", "footer", "err", "homepage", "list_item"];
 const EXTS: &[&str] = &["html", "svg", "xml"];
 // (the empty stem: a file called just `.rs.html` is a template named `_html`; it must not borrow a name from its directory)
 const STEMS_ODD: &[&str] = &["my-page", "my_page", "404", "n404", "a.b", "a_b", "a b", "Page", "page_", "pag\u{e9}", "r#page", "page.rs", "", ""];
@@ -737,6 +747,23 @@ fn statics_scenario(r: &mut Rng, twin: usize) -> Scenario {
             _ => script.push(SOp::A(format!("./single/dotted/./{n}"), format!("dots/{n}"))),
         }
     }
+    if r.chance(1, 3) {
+        // symbolic links inside the listed directories (a vendored asset linked from node_modules, a dangling
+        // link, a link to a directory): the static calls skip them — and must not trip over them
+        steps.push(Step::Write("linktargets/big.css".into(), r.bytes(300)));
+        steps.push(Step::Mkdir("linktargets/dir".into()));
+        for d in ["static", "as", "as/inner"] {
+            if steps.iter().any(|s| matches!(s, Step::Mkdir(p) if p == d)) {
+                let up = if d.contains('/') { "../.." } else { ".." };
+                match r.below(4) {
+                    0 => steps.push(Step::Symlink(format!("{d}/{}", r.pick(&["aa-link.css", "mid-link.css", "zz-link.css", "link"])), format!("{up}/linktargets/big.css"))),
+                    1 => steps.push(Step::Symlink(format!("{d}/dangling.js"), "nowhere/at/all.js".into())),
+                    2 => steps.push(Step::Symlink(format!("{d}/dirlink"), format!("{up}/linktargets/dir"))),
+                    _ => {}
+                }
+            }
+        }
+    }
     // shuffle the script order
     for i in (1..script.len()).rev() {
         let j = r.below(i + 1);
@@ -804,6 +831,11 @@ fn sass_scenario(r: &mut Rng) -> Scenario {
 fn tree_scenario(r: &mut Rng, twin: usize, allow_bad: bool) -> Scenario {
     let mut steps = vec![Step::Mkdir("templates".into())];
     rand_tree(r, 3, "templates/", &mut steps, allow_bad);
+    if r.chance(1, 6) {
+        // a template that is a symbolic link (shared between two crates): compiled like any other
+        steps.push(Step::Write("shared/linked.rs.html".into(), GOOD_TEMPLATES[1].as_bytes().to_vec()));
+        steps.push(Step::Symlink("templates/linked.rs.html".into(), "../shared/linked.rs.html".into()));
+    }
     let mut steps = dedup_steps(steps);
     steps.push(Step::Run);
     Scenario { kind: "tree", steps, script: vec![SOp::T("templates".into())], twin }
@@ -854,11 +886,15 @@ fn history_scenario(r: &mut Rng) -> Scenario {
             6 => steps.push(Step::Write(format!("static/{}", r.pick(STATIC_NAMES)), rand_content(r))),
             7 => {
                 // crash residue / garbage in an output file
-                let target = *r.pick(&["templates.rs", "templates/_utils.rs", "templates/statics.rs", "templates/template_page_html.rs", "templates/sub/mod.rs", "templates/template_index_html.rs"]);
-                let garbage: Vec<u8> = match r.below(4) {
+                // (also files *next to* the outputs — `<output>.tmp`, `<output>~` — with more bytes than any output
+                // has: a build that writes through a scratch file and died leaves such a file behind)
+                let target = *r.pick(&["templates.rs", "templates/_utils.rs", "templates/statics.rs", "templates/template_page_html.rs", "templates/sub/mod.rs", "templates/template_index_html.rs",
+                    "templates.rs.tmp", "templates/statics.rs.tmp", "templates/template_page_html.rs.tmp", "templates/template_index_html.rs.tmp", "templates/mod.rs.tmp", "templates/template_page_html.rs~", "templates/.template_page_html.rs.swp"]);
+                let garbage: Vec<u8> = match r.below(5) {
                     0 => vec![],
                     1 => b"pub mod templates {\n".to_vec(),
                     2 => vec![0xff, 0xfe, 0x00],
+                    3 => std::iter::repeat(&b"// residue of a build that died while writing this file\n"[..]).take(200).flatten().copied().collect(),
                     _ => b"garbage from an earlier crash".to_vec(),
                 };
                 steps.push(Step::OutWrite(target.into(), garbage));
@@ -1044,12 +1080,16 @@ pub fn run(args: &crate::Args) {
                         let q = p.replacen(&clean_root.join("out").display().to_string(), &outdir.display().to_string(), 1);
                         match res.after.get(&q) {
                             Some(d) if d == c => {}
+                            // what differs says which other promises are broken too: an index file = the module tree
+                            // (C10), a template's file = the generated function is not the one its template describes
+                            Some(_) if q.ends_with("/mod.rs") || q.ends_with("/templates.rs") => fail("[\"C12\",\"C18\",\"C10\"]", "incremental-differs", format!("{q} differs from a clean build"), &mut orc),
+                            Some(_) if q.rsplit('/').next().map_or(false, |f| f.starts_with("template_")) => fail("[\"C12\",\"C18\",\"C01\",\"C04\",\"C13\"]", "incremental-differs", format!("{q} differs from a clean build"), &mut orc),
                             Some(_) => fail("[\"C12\",\"C18\"]", "incremental-differs", format!("{q} differs from a clean build"), &mut orc),
                             None => fail("[\"C12\"]", "incremental-missing", format!("{q} missing, present in a clean build"), &mut orc),
                         }
                     }
                     if clean.stdout != res.stdout {
-                        fail("[\"C12\",\"C17\"]", "stdout-differs-from-clean", format!("{:?} vs clean {:?}", res.stdout, clean.stdout), &mut orc);
+                        fail("[\"C12\",\"C17\",\"C10\"]", "stdout-differs-from-clean", format!("{:?} vs clean {:?}", res.stdout, clean.stdout), &mut orc);
                     }
                     // ---- C17: every input is covered by a rerun-if-changed line
                     let lines: BTreeSet<String> = res.stdout.iter().filter_map(|l| l.strip_prefix("cargo:rerun-if-changed=").map(|s| s.to_string())).collect();
